@@ -1166,3 +1166,48 @@ def run(idx, rep, tier):
     r13(k)
     r14(k)
     r15(k)
+    rep.rule('C15.R16', 'security-key private keys: decode_ssh_private of '
+             'sk-ecdsa and sk-ed25519 agree - each takes the flags byte as '
+             'read (packet.get_byte()), without masking: verify-required '
+             '(0x04) and resident (0x20) written by ssh-keygen must survive '
+             'import and re-export')
+    _n = 0
+    for _q in ('sk_ecdsa._SKECDSAKey.decode_ssh_private',
+               'sk_eddsa._SKEd25519Key.decode_ssh_private'):
+        if not k.idx.has_func(_q):
+            continue
+        _f = k.func(_q)
+        for _nd, _v in k.stores_to(_f, 'flags'):
+            _n += 1
+            rep.check(_v is not None and is_call(_v, 'get_byte', 'packet'),
+                      'C15.R16', key(_f, 'flags kept as read'),
+                      'flags = packet.get_byte()',
+                      f'`flags = {norm(_v) if _v is not None else "?"}`: '
+                      'flag bits are dropped on import - a key enrolled '
+                      'with verify-required comes back as 0x01 and is '
+                      're-exported / uploaded to an agent without the bit',
+                      k.loc(_f, _nd))
+    rep.floor('C15.R16', 'flags reads', _n, 2)
+    rep.rule('C15.R17', '_decode_openssh_private hands the comment to '
+             'set_comment() as the bytes read from the key (a plain name '
+             'whose only definition is packet.get_string()), undecoded: a '
+             'Latin-1 / KOI8-R comment must survive import and re-export '
+             'byte for byte')
+    from ..flow import expr_sources
+    _fo = k.func('public_key._decode_openssh_private')
+    _go = k.cfg(_fo)
+    _ro = k.rd(_fo)
+    _sc = [(n, c) for n, c in k.calls_named(_fo, 'set_comment')]
+    rep.floor('C15.R17', 'set_comment calls', len(_sc), 1)
+    for _n, _c in _sc:
+        _a = _c.args[0] if _c.args else None
+        _ok = False
+        if isinstance(_a, ast.Name):
+            _lv, _fr = expr_sources(_go, _ro, _n.id, _a)
+            _ok = bool(_lv) and all(is_call(x, 'get_string') for x in _lv)
+        rep.check(_ok, 'C15.R17', key(_fo, 'comment bytes kept'),
+                  'set_comment(<bytes read from the key>)',
+                  f'`set_comment({norm(_a) if _a is not None else ""})`: the '
+                  'comment is transformed on import - a non-UTF-8 comment '
+                  'comes back as U+FFFD sequences and the re-exported file '
+                  'shows a different comment to ssh-keygen', k.loc(_fo, _n))
